@@ -469,6 +469,59 @@ func c06Implies(bop token.Token, kv int64, op token.Token, k int64) bool {
 	return a == b && av == bv
 }
 
+// c06Layout analyses how the byte slice `v` is built in fn: it must be
+// make([]byte, len(H)+len(B)) filled by copy(v, H[.Bytes()]) and
+// copy(v[HashSize:], B). It returns the objects H and B and which of the three
+// facts were found.
+func c06Layout(fn *engine.Fn, v types.Object, hashSize types.Object) (hashO, bzO types.Object, okMake, prefixCopy, bodyCopy bool) {
+	info := fn.Info()
+	isHashSize := func(e ast.Expr) bool {
+		if e == nil {
+			return false
+		}
+		if hashSize != nil && engine.ObjOf(info, e) == hashSize {
+			return true
+		}
+		return hashO != nil && engine.IsLenOf(info, e, hashO)
+	}
+	var bodyLow []ast.Expr
+	for _, s := range fn.CallsTo("builtin.copy") {
+		dst, src := ast.Unparen(s.Call.Args[0]), ast.Unparen(s.Call.Args[1])
+		if gvaRootObj(info, dst) != v {
+			continue
+		}
+		srcObj := engine.ObjOf(info, src)
+		if bc, bn := gvaCallee(info, src); bc != nil && strings.HasSuffix(bn, ".Bytes") {
+			srcObj = gvaRootObj(info, bc.Fun.(*ast.SelectorExpr).X)
+		}
+		switch d := dst.(type) {
+		case *ast.Ident:
+			hashO, prefixCopy = srcObj, srcObj != nil
+		case *ast.SliceExpr:
+			if d.Low == nil {
+				hashO, prefixCopy = srcObj, srcObj != nil
+			} else if d.High == nil {
+				bzO = srcObj
+				bodyLow = append(bodyLow, d.Low)
+			}
+		}
+	}
+	for _, low := range bodyLow {
+		if isHashSize(low) {
+			bodyCopy = true
+		}
+	}
+	if def := gvaSingleDef(fn, v, false); def != nil {
+		if mk, mn := gvaCallee(info, def); mn == "builtin.make" && len(mk.Args) == 2 {
+			if b, ok := ast.Unparen(mk.Args[1]).(*ast.BinaryExpr); ok && b.Op == token.ADD {
+				isB := func(e ast.Expr) bool { return bzO != nil && engine.IsLenOf(info, e, bzO) }
+				okMake = (isHashSize(b.X) && isB(b.Y)) || (isB(b.X) && isHashSize(b.Y))
+			}
+		}
+	}
+	return
+}
+
 func c06HashPrefix(c *engine.Ctx, p *engine.Prog) {
 	f := c.MustFunc(c04G + "(*defaultStore).SetObject")
 	if f == nil {
@@ -488,57 +541,36 @@ func c06HashPrefix(c *engine.Ctx, p *engine.Prog) {
 		return
 	}
 	c.Check("hash-prefix", "SetObject stores", f.Pos(), true, "baseStore.Set stores "+hbO.Name())
-	isHashSize := func(e ast.Expr, hashO types.Object) bool {
-		if e == nil {
-			return false
-		}
-		if hashSize != nil && engine.ObjOf(info, e) == hashSize {
-			return true
-		}
-		return hashO != nil && engine.IsLenOf(info, e, hashO)
-	}
-	// the two copies that fill it: prefix (hash) and body (bytes)
+	// the layout is built either here or in one package-local helper whose
+	// result is the stored value (`v := joinHashed(hash, bytes)`)
 	var hashO, bzO types.Object
-	prefixCopy, bodyCopy := false, false
-	for _, s := range f.CallsTo("builtin.copy") {
-		dst, src := ast.Unparen(s.Call.Args[0]), ast.Unparen(s.Call.Args[1])
-		if gvaRootObj(info, dst) != hbO {
-			continue
-		}
-		srcObj := engine.ObjOf(info, src)
-		if bc, bn := gvaCallee(info, src); bc != nil && strings.HasSuffix(bn, ".Bytes") {
-			srcObj = gvaRootObj(info, bc.Fun.(*ast.SelectorExpr).X)
-		}
-		switch d := dst.(type) {
-		case *ast.Ident:
-			hashO, prefixCopy = srcObj, srcObj != nil
-		case *ast.SliceExpr:
-			if d.Low == nil {
-				hashO, prefixCopy = srcObj, srcObj != nil
-			} else if d.High == nil {
-				bzO = srcObj
-				bodyCopy = true
-			}
-		}
-	}
-	// re-check the body offset once the hash variable is known
-	if bodyCopy {
-		bodyCopy = false
-		for _, s := range f.CallsTo("builtin.copy") {
-			if d, ok := ast.Unparen(s.Call.Args[0]).(*ast.SliceExpr); ok && gvaRootObj(info, d.X) == hbO && d.High == nil && isHashSize(d.Low, hashO) {
-				bodyCopy = true
-			}
-		}
-	}
-	okMake := false
+	okMake, prefixCopy, bodyCopy := false, false, false
 	if def := gvaSingleDef(f, hbO, false); def != nil {
-		if mk, mn := gvaCallee(info, def); mn == "builtin.make" && len(mk.Args) == 2 {
-			if b, ok := ast.Unparen(mk.Args[1]).(*ast.BinaryExpr); ok && b.Op == token.ADD {
-				isH := func(e ast.Expr) bool { return isHashSize(e, hashO) }
-				isB := func(e ast.Expr) bool { return bzO != nil && engine.IsLenOf(info, e, bzO) }
-				okMake = (isH(b.X) && isB(b.Y)) || (isB(b.X) && isH(b.Y))
+		if call, isCall := ast.Unparen(def).(*ast.CallExpr); isCall {
+			if fo, isF := gvaCalleeFunc(info, call); isF {
+				if h := p.FnOf(fo); h != nil && engine.Rel(h.Pkg.PkgPath) == gvaGno && !fo.Exported() {
+					if ret := gvaSoleReturn(h); ret != nil {
+						if ro := engine.ObjOf(h.Info(), ret); ro != nil {
+							hp, bp, m, pc, bc := c06Layout(h, ro, hashSize)
+							okMake, prefixCopy, bodyCopy = m, pc, bc
+							// map the helper's parameters back to SetObject's arguments
+							for i := 0; i < len(call.Args); i++ {
+								po := paramObj(h, i)
+								if po != nil && po == hp {
+									hashO = gvaRootObj(info, call.Args[i])
+								}
+								if po != nil && po == bp {
+									bzO = gvaRootObj(info, call.Args[i])
+								}
+							}
+						}
+					}
+				}
 			}
 		}
+	}
+	if hashO == nil && bzO == nil {
+		hashO, bzO, okMake, prefixCopy, bodyCopy = c06Layout(f, hbO, hashSize)
 	}
 	c.Check("hash-prefix", "SetObject layout", f.Pos(), okMake && prefixCopy && bodyCopy && hashO != nil && bzO != nil, fmt.Sprintf("stored value must be hash ‖ bytes: make(len(hash)+len(bytes))=%v, copy(v, hash)=%v, copy(v[HashSize:], bytes)=%v", okMake, prefixCopy, bodyCopy))
 	if hashO == nil || bzO == nil {
@@ -591,47 +623,83 @@ func c06HashPrefix(c *engine.Ctx, p *engine.Prog) {
 	}
 	c.Check("hash-prefix", "SetObject iavl", f.Pos(), iavl, "the escaped-object index must store the same hash")
 
-	// reader side: the loaded value is split at HashSize and the tail is what gets decoded
+	// reader side: the loaded value is split at HashSize — here or in one
+	// package-local helper returning (v[:HashSize], v[HashSize:]) — and the tail is what gets decoded
 	if lf := c.MustFunc(c04G + "(*defaultStore).loadObjectSafe"); lf != nil {
 		li := lf.Info()
-		var heads, tails []types.Object
-		engine.InspectBody(lf, func(n ast.Node) {
-			se, ok := n.(*ast.SliceExpr)
-			if !ok {
-				return
-			}
-			isHS := func(e ast.Expr) bool { return e != nil && hashSize != nil && engine.ObjOf(li, e) == hashSize }
-			if se.Low == nil && isHS(se.High) {
-				heads = append(heads, gvaRootObj(li, se.X))
-			}
-			if se.High == nil && isHS(se.Low) {
-				tails = append(tails, gvaRootObj(li, se.X))
-			}
-		})
-		split := false
-		for _, h := range heads {
-			for _, t := range tails {
-				if h != nil && h == t {
-					split = true
-				}
-			}
+		isHS := func(info *types.Info, e ast.Expr) bool {
+			return e != nil && hashSize != nil && engine.ObjOf(info, e) == hashSize
 		}
-		decodesTail := false
-		for _, s := range lf.CallsTo("tm2/pkg/amino.MustUnmarshal", "tm2/pkg/amino.MustUnmarshalAny") {
-			t := gvaNorm(lf, s.Call.Args[0], nil, gvaNormOpt{}, 0)
-			if t.Kind == "unknown" || t.Kind == "obj" {
-				// slice expressions are not modelled by terms: resolve the local by hand
-				if o := engine.ObjOf(li, s.Call.Args[0]); o != nil {
-					if def := gvaSingleDef(lf, o, false); def != nil {
-						if se, ok := ast.Unparen(def).(*ast.SliceExpr); ok && se.High == nil && se.Low != nil && hashSize != nil && engine.ObjOf(li, se.Low) == hashSize {
-							decodesTail = true
-						}
-					}
-				}
+		isTail := func(info *types.Info, e ast.Expr) (types.Object, bool) {
+			se, ok := ast.Unparen(e).(*ast.SliceExpr)
+			if ok && se.High == nil && isHS(info, se.Low) {
+				return gvaRootObj(info, se.X), true
 			}
-			if se, ok := ast.Unparen(s.Call.Args[0]).(*ast.SliceExpr); ok && se.High == nil && se.Low != nil && engine.ObjOf(li, se.Low) == hashSize {
+			return nil, false
+		}
+		isHead := func(info *types.Info, e ast.Expr) (types.Object, bool) {
+			se, ok := ast.Unparen(e).(*ast.SliceExpr)
+			if ok && se.Low == nil && isHS(info, se.High) {
+				return gvaRootObj(info, se.X), true
+			}
+			return nil, false
+		}
+		split, decodesTail := false, false
+		for _, s := range lf.CallsTo("tm2/pkg/amino.MustUnmarshal", "tm2/pkg/amino.MustUnmarshalAny") {
+			arg := s.Call.Args[0]
+			if _, ok := isTail(li, arg); ok {
 				decodesTail = true
 			}
+			o := engine.ObjOf(li, arg)
+			if o == nil {
+				continue
+			}
+			// (a) bz := v[HashSize:] with a v[:HashSize] of the same v in this function
+			if def := gvaSingleDef(lf, o, false); def != nil {
+				if src, ok := isTail(li, def); ok {
+					decodesTail = true
+					engine.InspectBody(lf, func(n ast.Node) {
+						if e, isE := n.(ast.Expr); isE {
+							if hsrc, okh := isHead(li, e); okh && hsrc == src && src != nil {
+								split = true
+							}
+						}
+					})
+				}
+			}
+			// (b) hash, bz := split(v): helper whose sole return is (p[:HashSize], p[HashSize:])
+			engine.InspectBody(lf, func(n ast.Node) {
+				as, ok := n.(*ast.AssignStmt)
+				if !ok || len(as.Lhs) != 2 || len(as.Rhs) != 1 || engine.ObjOf(li, as.Lhs[1]) != o {
+					return
+				}
+				call, ok := ast.Unparen(as.Rhs[0]).(*ast.CallExpr)
+				if !ok {
+					return
+				}
+				fo, ok := gvaCalleeFunc(li, call)
+				if !ok || fo.Exported() {
+					return
+				}
+				h := p.FnOf(fo)
+				if h == nil || engine.Rel(h.Pkg.PkgPath) != gvaGno {
+					return
+				}
+				var rets []*ast.ReturnStmt
+				engine.InspectBody(h, func(x ast.Node) {
+					if r, isR := x.(*ast.ReturnStmt); isR {
+						rets = append(rets, r)
+					}
+				})
+				if len(rets) != 1 || len(rets[0].Results) != 2 {
+					return
+				}
+				hsrc, okh := isHead(h.Info(), rets[0].Results[0])
+				tsrc, okt := isTail(h.Info(), rets[0].Results[1])
+				if okh && okt && hsrc != nil && hsrc == tsrc {
+					split, decodesTail = true, true
+				}
+			})
 		}
 		c.Check("hash-prefix", "loadObjectSafe split", lf.Pos(), split && decodesTail, "the reader must split the stored value at HashSize (hash = v[:HashSize]) and decode v[HashSize:]")
 	}
